@@ -10,6 +10,12 @@
   skipped by 'base' and refused when a different unit is requested for them, and when a conversion
   fails the caller gets the error rather than a partly relabelled table.
 
+  The pandas primitive behind the values setter is a parameter (`assign : Assign`); the clauses about the
+  converted values assume the law `Positional assign` (what `df[name] = ndarray` does), `positionalAssign`
+  satisfies it, and an example at the end shows that a label-aligned primitive on a permuted index breaks
+  `Converted`.  `convert_succeeds` states when the call returns; `first_failure_error` that the caller gets
+  exactly the error of the first failing column.
+
   Structure: `convertUnits_refines` relates the heap-writing model (`Convert.convertUnits`) to the pure
   column-by-column fold `Spec.convCols`; the property clauses are then read off per column
   (`Spec.Converted`) for tables with any number of columns and rows, any row index, any converter
@@ -73,20 +79,28 @@ def target (to : To) (ncols : Nat) : Except Err (Nat → Col → Option Str) :=
   | .other => .error .typeError
 
 /-- column-by-column conversion as a pure fold: `k` calls so far, first column at position `p` -/
-def convCols (conv : Conv) (tgt : Nat → Col → Option Str) (nrows : Nat) :
+def convCols (assign : Assign) (conv : Conv) (tgt : Nat → Col → Option Str) (idx : List Val) :
     Nat → Nat → List Col → Except Err (List Col × Nat)
   | k, _, [] => .ok ([], k)
   | k, p, c :: cs =>
-    match convertCol conv k nrows c (tgt p c) with
+    match convertCol assign conv k idx c (tgt p c) with
     | .error e => .error e
     | .ok (c', k') =>
-      match convCols conv tgt nrows k' (p + 1) cs with
+      match convCols assign conv tgt idx k' (p + 1) cs with
       | .error e => .error e
       | .ok (cs', k'') => .ok (c' :: cs', k'')
 
 end Spec
 open Spec
 
+/- the assignment primitive of the values setter: arbitrary; the clauses that speak about the converted
+   values assume `Positional assign` (`hpos`) -/
+variable {assign : Assign}
+
+/-- the primitive pandas 3 provides satisfies the law (non-vacuity of `hpos`) -/
+theorem positionalAssign_positional : Positional positionalAssign := fun _ _ _ _ => rfl
+
+/-! ## one column -/
 
 theorem isSpecial_eq (u : Str) : isSpecial u = special u := by
   simp only [isSpecial, inconvertible_pinned, special, List.contains_cons, List.contains_nil, Bool.or_false, Bool.or_assoc]
@@ -94,14 +108,24 @@ theorem isSpecial_eq (u : Str) : isSpecial u = special u := by
 theorem originTok_lit : originTok = origin := rfl
 theorem baseTok_lit : baseTok = base := rfl
 
-theorem convertCol_ok (conv : Conv) (k nrows : Nat) (c : Col) (tgt : Option Str) (c' : Col) (k' : Nat)
-    (h : convertCol conv k nrows c tgt = .ok (c', k')) :
-    Converted conv k nrows c tgt c' ∧ k' = k + (if targeted c tgt then 1 else 0) := by
+/-- `Converted` before the law of the assignment primitive is used: the column is whatever `assign` made of
+    the converter's output -/
+def ConvertedRaw (assign : Assign) (conv : Conv) (k : Nat) (idx : List Val) (c : Col) (tgt : Option Str)
+    (c' : Col) : Prop :=
+  if targeted c tgt = false then c' = c
+  else ∃ u vs reported, tgt = some u ∧ special c.unit = false ∧ u ≠ origin ∧
+    conv k c.vals c.unit (convArg u) = .ok (vs, reported) ∧ vs.length = idx.length ∧
+    c' = { assign idx c vs with unit := newUnit u reported }
+
+theorem convertCol_raw (conv : Conv) (k : Nat) (idx : List Val) (c : Col)
+    (tgt : Option Str) (c' : Col) (k' : Nat)
+    (h : convertCol assign conv k idx c tgt = .ok (c', k')) :
+    ConvertedRaw assign conv k idx c tgt c' ∧ k' = k + (if targeted c tgt then 1 else 0) := by
   cases tgt with
   | none =>
     simp [convertCol] at h
     obtain ⟨rfl, rfl⟩ := h
-    simp [Converted, targeted]
+    simp [ConvertedRaw, targeted]
   | some u =>
     unfold convertCol at h
     simp only [originTok_lit, baseTok_lit, isSpecial_eq] at h
@@ -109,7 +133,7 @@ theorem convertCol_ok (conv : Conv) (k nrows : Nat) (c : Col) (tgt : Option Str)
     · rename_i h1
       simp only [Except.ok.injEq, Prod.mk.injEq] at h
       obtain ⟨rfl, rfl⟩ := h
-      simp [Converted, targeted, h1]
+      simp [ConvertedRaw, targeted, h1]
     · rename_i h1
       have ht : targeted c (some u) = true := by simp [targeted, h1]
       cases hs : special c.unit with
@@ -126,11 +150,11 @@ theorem convertCol_ok (conv : Conv) (k nrows : Nat) (c : Col) (tgt : Option Str)
             | ok r =>
               obtain ⟨vs, ur⟩ := r
               simp only [hc] at h
-              by_cases hl : vs.length = nrows
+              by_cases hl : vs.length = idx.length
               · simp only [hl, ne_eq, not_true_eq_false, if_false, Except.ok.injEq, Prod.mk.injEq] at h
                 obtain ⟨rfl, rfl⟩ := h
                 refine ⟨?_, by simp [ht]⟩
-                simp only [Converted, ht, Bool.true_eq_false, if_false]
+                simp only [ConvertedRaw, ht, Bool.true_eq_false, if_false]
                 exact ⟨u, vs, ur, rfl, hs, h2, by simp [convArg, h3, hc], hl, by simp [newUnit, h3]⟩
               · simp [hl] at h
           · simp only [h3, if_false] at h
@@ -139,33 +163,50 @@ theorem convertCol_ok (conv : Conv) (k nrows : Nat) (c : Col) (tgt : Option Str)
             | ok r =>
               obtain ⟨vs, ur⟩ := r
               simp only [hc] at h
-              by_cases hl : vs.length = nrows
+              by_cases hl : vs.length = idx.length
               · simp only [hl, ne_eq, not_true_eq_false, if_false, Except.ok.injEq, Prod.mk.injEq] at h
                 obtain ⟨rfl, rfl⟩ := h
                 refine ⟨?_, by simp [ht]⟩
-                simp only [Converted, ht, Bool.true_eq_false, if_false]
+                simp only [ConvertedRaw, ht, Bool.true_eq_false, if_false]
                 exact ⟨u, vs, ur, rfl, hs, h2, by simp [convArg, h3, hc], hl, by simp [newUnit, h3]⟩
               · simp [hl] at h
+/-- `Column.convert_units` succeeds only in the ways `Converted` lists (given a positional assignment
+    primitive), and makes one converter call exactly for a targeted column -/
+theorem convertCol_ok (hpos : Positional assign) (conv : Conv) (k : Nat) (idx : List Val) (c : Col)
+    (tgt : Option Str) (c' : Col) (k' : Nat)
+    (h : convertCol assign conv k idx c tgt = .ok (c', k')) :
+    Converted conv k idx.length c tgt c' ∧ k' = k + (if targeted c tgt then 1 else 0) := by
+  obtain ⟨h1, h2⟩ := convertCol_raw conv k idx c tgt c' k' h
+  refine ⟨?_, h2⟩
+  unfold ConvertedRaw at h1
+  unfold Converted
+  split
+  · rename_i ht; simpa [ht] using h1
+  · rename_i ht
+    simp only [ht, if_false] at h1
+    obtain ⟨u, vs, rep, hu, hs, ho, hc, hl, hc'⟩ := h1
+    exact ⟨u, vs, rep, hu, hs, ho, hc, hl, by rw [hc', hpos idx c vs hl]⟩
+
 /-- the guard precedes the converter: a special column asked for another unit is refused, whatever
     the converter is -/
-theorem convertCol_special (conv : Conv) (k nrows : Nat) (c : Col) (u : Str)
+theorem convertCol_special (conv : Conv) (k : Nat) (idx : List Val) (c : Col) (u : Str)
     (hs : special c.unit = true) (hu : u ≠ c.unit) :
-    convertCol conv k nrows c (some u) = .error .unitConversionNotDefined := by
+    convertCol assign conv k idx c (some u) = .error .unitConversionNotDefined := by
   unfold convertCol
   simp only [hu, if_false, isSpecial_eq, hs, if_true]
 
 /-- a column that is not targeted is returned as it is, without a converter call -/
-theorem convertCol_untargeted (conv : Conv) (k nrows : Nat) (c : Col) (tgt : Option Str)
-    (h : targeted c tgt = false) : convertCol conv k nrows c tgt = .ok (c, k) := by
+theorem convertCol_untargeted (conv : Conv) (k : Nat) (idx : List Val) (c : Col) (tgt : Option Str)
+    (h : targeted c tgt = false) : convertCol assign conv k idx c tgt = .ok (c, k) := by
   cases tgt with
   | none => rfl
   | some u => simp [targeted] at h; simp [convertCol, h]
 
 /-- a converter failure is the column's failure, with the converter's own exception -/
-theorem convertCol_conv_error (conv : Conv) (k nrows : Nat) (c : Col) (u : Str) (e : Str)
+theorem convertCol_conv_error (conv : Conv) (k : Nat) (idx : List Val) (c : Col) (u : Str) (e : Str)
     (hu : u ≠ c.unit) (hs : special c.unit = false) (ho : u ≠ origin)
     (hc : conv k c.vals c.unit (convArg u) = .error e) :
-    convertCol conv k nrows c (some u) = .error (.conv e) := by
+    convertCol assign conv k idx c (some u) = .error (.conv e) := by
   unfold convertCol
   simp only [originTok_lit, baseTok_lit, isSpecial_eq, hu, hs, ho, if_false, Bool.false_eq_true]
   by_cases hb : u = base
@@ -176,12 +217,12 @@ theorem convertCol_conv_error (conv : Conv) (k nrows : Nat) (c : Col) (u : Str) 
 
 /-! ## the pure fold -/
 
-theorem convCols_pointwise (conv : Conv) (tgt : Nat → Col → Option Str) (nrows : Nat)
+theorem convCols_pointwise (hpos : Positional assign) (conv : Conv) (tgt : Nat → Col → Option Str) (idx : List Val)
     (cols : List Col) : ∀ (k p : Nat) (cs' : List Col) (k' : Nat),
-    convCols conv tgt nrows k p cols = .ok (cs', k') →
+    convCols assign conv tgt idx k p cols = .ok (cs', k') →
     cs'.length = cols.length ∧
     ∀ j c, cols[j]? = some c → ∃ c', cs'[j]? = some c' ∧
-      Converted conv (k + callsBefore tgt p cols j) nrows c (tgt (p + j) c) c' := by
+      Converted conv (k + callsBefore tgt p cols j) idx.length c (tgt (p + j) c) c' := by
   induction cols with
   | nil =>
     intro k p cs' k' h
@@ -191,19 +232,19 @@ theorem convCols_pointwise (conv : Conv) (tgt : Nat → Col → Option Str) (nro
   | cons c cs ih =>
     intro k p cs' k' h
     unfold convCols at h
-    cases h1 : convertCol conv k nrows c (tgt p c) with
+    cases h1 : convertCol assign conv k idx c (tgt p c) with
     | error e => simp [h1] at h
     | ok r1 =>
       obtain ⟨c1, k1⟩ := r1
       simp only [h1] at h
-      cases h2 : convCols conv tgt nrows k1 (p + 1) cs with
+      cases h2 : convCols assign conv tgt idx k1 (p + 1) cs with
       | error e => simp [h2] at h
       | ok r2 =>
         obtain ⟨cs2, k2⟩ := r2
         simp only [h2, Except.ok.injEq, Prod.mk.injEq] at h
         obtain ⟨hcs, -⟩ := h
         subst hcs
-        obtain ⟨hconv, hk1⟩ := convertCol_ok conv k nrows c (tgt p c) c1 k1 h1
+        obtain ⟨hconv, hk1⟩ := convertCol_ok hpos conv k idx c (tgt p c) c1 k1 h1
         obtain ⟨hlen, hpt⟩ := ih k1 (p + 1) cs2 k2 h2
         refine ⟨by simp [hlen], ?_⟩
         intro j d hd
@@ -221,16 +262,16 @@ theorem convCols_pointwise (conv : Conv) (tgt : Nat → Col → Option Str) (nro
           rw [e1, e2]; exact hC
 
 /-- if any column's own conversion fails (at its place in the call sequence), the fold fails -/
-theorem convCols_error_of_col (conv : Conv) (tgt : Nat → Col → Option Str) (nrows : Nat)
+theorem convCols_error_of_col (conv : Conv) (tgt : Nat → Col → Option Str) (idx : List Val)
     (cols : List Col) : ∀ (k p j : Nat) (c : Col), cols[j]? = some c →
-    (∃ e, convertCol conv (k + callsBefore tgt p cols j) nrows c (tgt (p + j) c) = .error e) →
-    ∃ e, convCols conv tgt nrows k p cols = .error e := by
+    (∃ e, convertCol assign conv (k + callsBefore tgt p cols j) idx c (tgt (p + j) c) = .error e) →
+    ∃ e, convCols assign conv tgt idx k p cols = .error e := by
   induction cols with
   | nil => intro k p j c h; simp at h
   | cons c0 cs ih =>
     intro k p j c hj ⟨e, he⟩
     unfold convCols
-    cases h1 : convertCol conv k nrows c0 (tgt p c0) with
+    cases h1 : convertCol assign conv k idx c0 (tgt p c0) with
     | error e1 => exact ⟨e1, rfl⟩
     | ok r1 =>
       obtain ⟨c1, k1⟩ := r1
@@ -241,7 +282,7 @@ theorem convCols_error_of_col (conv : Conv) (tgt : Nat → Col → Option Str) (
         rw [he] at h1; cases h1
       | succ j =>
         simp only [List.getElem?_cons_succ] at hj
-        have hk1 := (convertCol_ok conv k nrows c0 (tgt p c0) c1 k1 h1).2
+        have hk1 := (convertCol_raw conv k idx c0 (tgt p c0) c1 k1 h1).2
         have e1 : k + callsBefore tgt p (c0 :: cs) (j + 1) = k1 + callsBefore tgt (p + 1) cs j := by
           simp [callsBefore, hk1]; omega
         have e2 : p + (j + 1) = p + 1 + j := by omega
@@ -262,8 +303,8 @@ theorem write_length (w : World) (r j : Nat) (c : Col) : (write w r j c).length 
   cases hr : w[r]? <;> simp
 
 theorem loop_frame (conv : Conv) (tgt : Nat → Col → Option Str) (r : Nat) (js : List Nat) :
-    ∀ (w : World) (k : Nat), (loop conv tgt r w k js).1.length = w.length ∧
-      ∀ i, i ≠ r → (loop conv tgt r w k js).1[i]? = w[i]? := by
+    ∀ (w : World) (k : Nat), (loop assign conv tgt r w k js).1.length = w.length ∧
+      ∀ i, i ≠ r → (loop assign conv tgt r w k js).1[i]? = w[i]? := by
   induction js with
   | nil => intro w k; simp [loop]
   | cons j js ih =>
@@ -272,9 +313,9 @@ theorem loop_frame (conv : Conv) (tgt : Nat → Col → Option Str) (r : Nat) (j
     cases h1 : readCol w r j with
     | none => simp only [h1]; exact ih w k
     | some p =>
-      obtain ⟨nrows, c⟩ := p
+      obtain ⟨idx, c⟩ := p
       simp only [h1]
-      cases h2 : convertCol conv k nrows c (tgt j c) with
+      cases h2 : convertCol assign conv k idx c (tgt j c) with
       | error e => simp
       | ok q =>
         obtain ⟨c', k'⟩ := q
@@ -292,19 +333,19 @@ theorem loop_spec (conv : Conv) (tgt : Nat → Col → Option Str) (r : Nat)
     (nm : Str) (ds : List Str) (idx : List Val) (rest : List Col) :
     ∀ (pre : List Col) (w : World) (k : Nat),
     w[r]? = some ⟨nm, ds, idx, pre ++ rest⟩ →
-    match convCols conv tgt idx.length k pre.length rest with
-    | .error e => (loop conv tgt r w k (List.range' pre.length rest.length)).2 = .error e
+    match convCols assign conv tgt idx k pre.length rest with
+    | .error e => (loop assign conv tgt r w k (List.range' pre.length rest.length)).2 = .error e
     | .ok (cs', _) =>
-      (loop conv tgt r w k (List.range' pre.length rest.length)).2 = .ok () ∧
-      (loop conv tgt r w k (List.range' pre.length rest.length)).1[r]? = some ⟨nm, ds, idx, pre ++ cs'⟩ := by
+      (loop assign conv tgt r w k (List.range' pre.length rest.length)).2 = .ok () ∧
+      (loop assign conv tgt r w k (List.range' pre.length rest.length)).1[r]? = some ⟨nm, ds, idx, pre ++ cs'⟩ := by
   induction rest with
   | nil => intro pre w k hw; simp [convCols, loop, hw]
   | cons c rest ih =>
     intro pre w k hw
-    have hread : readCol w r pre.length = some (idx.length, c) := by
+    have hread : readCol w r pre.length = some (idx, c) := by
       simp [readCol, hw]
     simp only [List.length_cons, List.range'_succ, loop, hread, convCols]
-    cases h1 : convertCol conv k idx.length c (tgt pre.length c) with
+    cases h1 : convertCol assign conv k idx c (tgt pre.length c) with
     | error e => simp
     | ok q =>
       obtain ⟨c', k'⟩ := q
@@ -317,7 +358,7 @@ theorem loop_spec (conv : Conv) (tgt : Nat → Col → Option Str) (r : Nat)
         simp [write, hw, List.getElem?_set_self hlt, set_append_mid]
       have := ih (pre ++ [c']) (write w r pre.length c') k' hw'
       simp only [List.length_append, List.length_cons, List.length_nil, Nat.zero_add] at this
-      cases h2 : convCols conv tgt idx.length k' (pre.length + 1) rest with
+      cases h2 : convCols assign conv tgt idx k' (pre.length + 1) rest with
       | error e => simpa [h2] using this
       | ok q2 =>
         obtain ⟨cs2, k2⟩ := q2
@@ -348,9 +389,9 @@ theorem form_spec (to : To) (ncols : Nat) :
 
 theorem runLoop_spec (w : World) (self : Nat) (h : self < w.length) (conv : Conv)
     (tgt : Nat → Col → Option Str) :
-    let res := runLoop conv tgt (w ++ [w[self]]) w.length w[self].cols.length
+    let res := runLoop assign conv tgt (w ++ [w[self]]) w.length w[self].cols.length
     (∀ i, i < w.length → res.1[i]? = w[i]?) ∧
-    match convCols conv tgt w[self].index.length 0 0 w[self].cols with
+    match convCols assign conv tgt w[self].index 0 0 w[self].cols with
     | .error e => res.2 = .error e
     | .ok (cs', _) => res.2 = .ok w.length ∧ res.1[w.length]? = some { w[self] with cols := cs' } := by
   intro res
@@ -358,16 +399,16 @@ theorem runLoop_spec (w : World) (self : Nat) (h : self < w.length) (conv : Conv
     fun i hi => List.getElem?_append_left hi
   have hw : (w ++ [w[self]])[w.length]? =
       some ⟨w[self].name, w[self].dests, w[self].index, [] ++ w[self].cols⟩ := by simp
-  have hs := loop_spec conv tgt w.length w[self].name w[self].dests w[self].index w[self].cols []
+  have hs := loop_spec (assign := assign) conv tgt w.length w[self].name w[self].dests w[self].index w[self].cols []
     (w ++ [w[self]]) 0 hw
-  have hf := loop_frame conv tgt w.length (List.range w[self].cols.length) (w ++ [w[self]]) 0
+  have hf := loop_frame (assign := assign) conv tgt w.length (List.range w[self].cols.length) (w ++ [w[self]]) 0
   simp only [List.length_nil, ← List.range_eq_range', List.nil_append] at hs
   simp only [res, runLoop]
-  generalize loop conv tgt w.length (w ++ [w[self]]) 0 (List.range w[self].cols.length) = l at hs hf
+  generalize loop assign conv tgt w.length (w ++ [w[self]]) 0 (List.range w[self].cols.length) = l at hs hf
   obtain ⟨w2, r2⟩ := l
   have hfr : ∀ i, i < w.length → w2[i]? = w[i]? := fun i hi => by
     rw [← hpre i hi]; exact hf.2 i (Nat.ne_of_lt hi)
-  cases hcc : convCols conv tgt w[self].index.length 0 0 w[self].cols with
+  cases hcc : convCols assign conv tgt w[self].index 0 0 w[self].cols with
   | error e =>
     simp only [hcc] at hs
     cases r2 with
@@ -385,7 +426,7 @@ theorem runLoop_spec (w : World) (self : Nat) (h : self < w.length) (conv : Conv
     per-column targets, run the fold over the columns of a fresh copy; older frames are never written. -/
 theorem convertUnits_refines (w : World) (self : Nat) (h : self < w.length) (to : To)
     (converter dflt : Option Conv) :
-    let res := convertUnits w self h to converter dflt
+    let res := convertUnits assign w self h to converter dflt
     (∀ i, i < w.length → res.1[i]? = w[i]?) ∧
     match choose converter dflt with
     | none => res.2 = .error .missingConverter
@@ -393,7 +434,7 @@ theorem convertUnits_refines (w : World) (self : Nat) (h : self < w.length) (to 
       match Spec.target to w[self].cols.length with
       | .error e => res.2 = .error e
       | .ok tgt =>
-        match convCols conv tgt w[self].index.length 0 0 w[self].cols with
+        match convCols assign conv tgt w[self].index 0 0 w[self].cols with
         | .error e => res.2 = .error e
         | .ok (cs', _) => res.2 = .ok w.length ∧
             res.1[w.length]? = some { w[self] with cols := cs' } := by
@@ -438,13 +479,13 @@ theorem converted_name {conv : Conv} {k nrows : Nat} {c c' : Col} {tgt : Option 
     converter's output for the column's original values (as a list: position by position, the row index
     plays no part and is kept), labelled with the requested unit — for `__base__` with the unit the
     converter reported —, the converter having been called once per such column, in column order. -/
-theorem convert_values_and_label (w : World) (self : Nat) (h : self < w.length) (to : To)
+theorem convert_values_and_label (hpos : Positional assign) (w : World) (self : Nat) (h : self < w.length) (to : To)
     (converter dflt : Option Conv) (w' : World) (r : Nat)
-    (hres : convertUnits w self h to converter dflt = (w', .ok r)) :
+    (hres : convertUnits assign w self h to converter dflt = (w', .ok r)) :
     ∃ conv tgt t', choose converter dflt = some conv ∧
       Spec.target to w[self].cols.length = .ok tgt ∧
       r = w.length ∧ w'[r]? = some t' ∧ Spec.Result conv tgt w[self] t' := by
-  have href := convertUnits_refines w self h to converter dflt
+  have href := convertUnits_refines (assign := assign) w self h to converter dflt
   simp only [hres] at href
   obtain ⟨-, h2⟩ := href
   cases hch : choose converter dflt with
@@ -455,13 +496,13 @@ theorem convert_values_and_label (w : World) (self : Nat) (h : self < w.length) 
     | error e => simp [htg] at h2
     | ok tgt =>
       simp only [htg] at h2
-      cases hcc : convCols conv tgt w[self].index.length 0 0 w[self].cols with
+      cases hcc : convCols assign conv tgt w[self].index 0 0 w[self].cols with
       | error e => simp [hcc] at h2
       | ok q =>
         obtain ⟨cs', k'⟩ := q
         simp only [hcc, Except.ok.injEq] at h2
         obtain ⟨hr, hw'⟩ := h2
-        obtain ⟨hlen, hpt⟩ := convCols_pointwise conv tgt w[self].index.length w[self].cols 0 0 cs' k' hcc
+        obtain ⟨hlen, hpt⟩ := convCols_pointwise hpos conv tgt w[self].index w[self].cols 0 0 cs' k' hcc
         refine ⟨conv, tgt, { w[self] with cols := cs' }, rfl, rfl, hr, by rw [hr]; exact hw', rfl, rfl, rfl, hlen, ?_⟩
         intro j c hc
         obtain ⟨c', h1, h2⟩ := hpt j c hc
@@ -495,7 +536,7 @@ theorem untargeted_unchanged (conv : Conv) (tgt : Nat → Col → Option Str) (t
     whether the call returns a table or raises -/
 theorem original_unchanged (w : World) (self : Nat) (h : self < w.length) (to : To)
     (converter dflt : Option Conv) :
-    ∀ i, i < w.length → (convertUnits w self h to converter dflt).1[i]? = w[i]? :=
+    ∀ i, i < w.length → (convertUnits assign w self h to converter dflt).1[i]? = w[i]? :=
   (convertUnits_refines w self h to converter dflt).1
 
 theorem target_base (n : Nat) : Spec.target (.str "base".toList) n =
@@ -511,13 +552,13 @@ theorem target_origin (n : Nat) : Spec.target (.str "origin".toList) n =
 
 /-- **text / onoff / datetime columns are skipped by 'base'**: not targeted (so: no converter call,
     no refusal), and returned as they are -/
-theorem special_skipped_by_base (w : World) (self : Nat) (h : self < w.length)
+theorem special_skipped_by_base (hpos : Positional assign) (w : World) (self : Nat) (h : self < w.length)
     (converter dflt : Option Conv) (w' : World) (r : Nat)
-    (hres : convertUnits w self h (.str "base".toList) converter dflt = (w', .ok r))
+    (hres : convertUnits assign w self h (.str "base".toList) converter dflt = (w', .ok r))
     (j : Nat) (c : Col) (hc : w[self].cols[j]? = some c) (hs : special c.unit = true) :
     ∃ t', w'[r]? = some t' ∧ t'.cols[j]? = some c := by
   obtain ⟨conv, tgt, t', -, htg, -, hw', hR⟩ :=
-    convert_values_and_label w self h _ converter dflt w' r hres
+    convert_values_and_label hpos w self h _ converter dflt w' r hres
   rw [target_base] at htg
   cases htg
   exact ⟨t', hw', (untargeted_unchanged conv _ _ t' hR).2.2.2.2 j c hc (by simp [targeted, hs])⟩
@@ -528,12 +569,12 @@ theorem column_failure_fails_call (w : World) (self : Nat) (h : self < w.length)
     (converter dflt : Option Conv) (conv : Conv) (tgt : Nat → Col → Option Str)
     (hch : choose converter dflt = some conv) (htg : Spec.target to w[self].cols.length = .ok tgt)
     (j : Nat) (c : Col) (hc : w[self].cols[j]? = some c)
-    (hfail : ∃ e, convertCol conv (callsBefore tgt 0 w[self].cols j) w[self].index.length c (tgt j c)
+    (hfail : ∃ e, convertCol assign conv (callsBefore tgt 0 w[self].cols j) w[self].index c (tgt j c)
       = .error e) :
-    ∃ e, (convertUnits w self h to converter dflt).2 = .error e := by
-  have href := (convertUnits_refines w self h to converter dflt).2
+    ∃ e, (convertUnits assign w self h to converter dflt).2 = .error e := by
+  have href := (convertUnits_refines (assign := assign) w self h to converter dflt).2
   simp only [hch, htg] at href
-  obtain ⟨e, he⟩ := convCols_error_of_col conv tgt w[self].index.length w[self].cols 0 0 j c hc
+  obtain ⟨e, he⟩ := convCols_error_of_col conv tgt w[self].index w[self].cols 0 0 j c hc
     (by simpa using hfail)
   simp only [he] at href
   exact ⟨e, href⟩
@@ -547,13 +588,13 @@ theorem special_refused (w : World) (self : Nat) (h : self < w.length) (to : To)
     (hch : choose converter dflt = some conv) (htg : Spec.target to w[self].cols.length = .ok tgt)
     (j : Nat) (c : Col) (u : Str) (hc : w[self].cols[j]? = some c) (hs : special c.unit = true)
     (hu : tgt j c = some u) (hne : u ≠ c.unit) :
-    ∃ e, (convertUnits w self h to converter dflt).2 = .error e :=
+    ∃ e, (convertUnits assign w self h to converter dflt).2 = .error e :=
   column_failure_fails_call w self h to converter dflt conv tgt hch htg j c hc
     ⟨_, by rw [hu]; exact convertCol_special conv _ _ c u hs hne⟩
 
 /-- … and nothing happens when the unit it already has is requested -/
-theorem special_same_unit_ok (conv : Conv) (k nrows : Nat) (c : Col) :
-    convertCol conv k nrows c (some c.unit) = .ok (c, k) := by
+theorem special_same_unit_ok (conv : Conv) (k : Nat) (idx : List Val) (c : Col) :
+    convertCol assign conv k idx c (some c.unit) = .ok (c, k) := by
   simp [convertCol]
 
 /-- **when a conversion fails the caller gets the error rather than a partly relabelled table**: if the
@@ -565,8 +606,8 @@ theorem failure_is_atomic (w : World) (self : Nat) (h : self < w.length) (to : T
     (j : Nat) (c : Col) (u e : Str) (hc : w[self].cols[j]? = some c)
     (hu : tgt j c = some u) (hne : u ≠ c.unit)
     (hfail : conv (callsBefore tgt 0 w[self].cols j) c.vals c.unit (convArg u) = .error e) :
-    (∃ e', (convertUnits w self h to converter dflt).2 = .error e') ∧
-    ∀ i, i < w.length → (convertUnits w self h to converter dflt).1[i]? = w[i]? := by
+    (∃ e', (convertUnits assign w self h to converter dflt).2 = .error e') ∧
+    ∀ i, i < w.length → (convertUnits assign w self h to converter dflt).1[i]? = w[i]? := by
   refine ⟨?_, original_unchanged w self h to converter dflt⟩
   apply column_failure_fails_call w self h to converter dflt conv tgt hch htg j c hc
   rw [hu]
@@ -582,35 +623,177 @@ theorem failure_is_atomic (w : World) (self : Nat) (h : self < w.length) (to : T
 
 /-- the error the caller gets is the failing column's own error when no earlier column fails:
     one-column tables make this exact -/
-theorem single_column_error (conv : Conv) (tgt : Nat → Col → Option Str) (nrows : Nat) (c : Col) (e : Err)
-    (h : convertCol conv 0 nrows c (tgt 0 c) = .error e) :
-    convCols conv tgt nrows 0 0 [c] = .error e := by
+theorem single_column_error (conv : Conv) (tgt : Nat → Col → Option Str) (idx : List Val) (c : Col) (e : Err)
+    (h : convertCol assign conv 0 idx c (tgt 0 c) = .error e) :
+    convCols assign conv tgt idx 0 0 [c] = .error e := by
   simp [convCols, h]
+
+/-! ## success, and the exact error of the first failing column -/
+
+namespace Spec
+/-- column `c` with target `tgt` can be converted when `k` converter calls preceded: it is not targeted, or
+    it is convertible, the target is not `__origin__`, and the converter returns one value per row -/
+def ColOK (conv : Conv) (k nrows : Nat) (c : Col) (tgt : Option Str) : Prop :=
+  targeted c tgt = false ∨ ∃ u vs reported, tgt = some u ∧ special c.unit = false ∧ u ≠ origin ∧
+    conv k c.vals c.unit (convArg u) = .ok (vs, reported) ∧ vs.length = nrows
+end Spec
+
+theorem convertCol_succeeds (conv : Conv) (k : Nat) (idx : List Val) (c : Col) (tgt : Option Str)
+    (h : ColOK conv k idx.length c tgt) :
+    ∃ c', convertCol assign conv k idx c tgt = .ok (c', k + (if targeted c tgt then 1 else 0)) := by
+  rcases h with ht | ⟨u, vs, rep, rfl, hs, ho, hc, hl⟩
+  · exact ⟨c, by simp [convertCol_untargeted conv k idx c tgt ht, ht]⟩
+  · by_cases hu : u = c.unit
+    · have ht : targeted c (some u) = false := by simp [targeted, hu]
+      exact ⟨c, by simp [convertCol_untargeted conv k idx c _ ht, ht]⟩
+    · have ht : targeted c (some u) = true := by simp [targeted, hu]
+      unfold convertCol
+      simp only [hu, if_false, isSpecial_eq, hs, Bool.false_eq_true, originTok_lit, ho, baseTok_lit, ht,
+        if_true]
+      by_cases hb : u = base
+      · simp only [convArg, hb, if_true] at hc
+        simp only [hb, if_true, hc, hl, ne_eq, not_true_eq_false, if_false]
+        exact ⟨_, rfl⟩
+      · simp only [convArg, hb, if_false] at hc
+        simp only [hb, if_false, hc, hl, ne_eq, not_true_eq_false]
+        exact ⟨_, rfl⟩
+
+theorem convCols_succeeds (conv : Conv) (tgt : Nat → Col → Option Str) (idx : List Val)
+    (cols : List Col) : ∀ (k p : Nat),
+    (∀ j c, cols[j]? = some c → ColOK conv (k + callsBefore tgt p cols j) idx.length c (tgt (p + j) c)) →
+    ∃ r, convCols assign conv tgt idx k p cols = .ok r := by
+  induction cols with
+  | nil => intro k p _; exact ⟨_, rfl⟩
+  | cons c cs ih =>
+    intro k p h
+    obtain ⟨c1, h1⟩ := convertCol_succeeds (assign := assign) conv k idx c (tgt p c)
+      (by simpa [callsBefore] using h 0 c rfl)
+    obtain ⟨r, hr⟩ := ih (k + (if targeted c (tgt p c) then 1 else 0)) (p + 1) (fun j d hd => by
+      have := h (j + 1) d (by simpa using hd)
+      have e1 : k + callsBefore tgt p (c :: cs) (j + 1) =
+          k + (if targeted c (tgt p c) then 1 else 0) + callsBefore tgt (p + 1) cs j := by
+        simp [callsBefore]; omega
+      have e2 : p + (j + 1) = p + 1 + j := by omega
+      rwa [e1, e2] at this)
+    unfold convCols
+    simp only [h1, hr]
+    exact ⟨_, rfl⟩
+
+theorem convCols_first_error (conv : Conv) (tgt : Nat → Col → Option Str) (idx : List Val)
+    (cols : List Col) : ∀ (k p j : Nat) (c : Col) (e : Err), cols[j]? = some c →
+    (∀ i ci, i < j → cols[i]? = some ci →
+      ColOK conv (k + callsBefore tgt p cols i) idx.length ci (tgt (p + i) ci)) →
+    convertCol assign conv (k + callsBefore tgt p cols j) idx c (tgt (p + j) c) = .error e →
+    convCols assign conv tgt idx k p cols = .error e := by
+  induction cols with
+  | nil => intro k p j c e h; simp at h
+  | cons c0 cs ih =>
+    intro k p j c e hj hbefore hfail
+    unfold convCols
+    cases j with
+    | zero =>
+      simp at hj; subst hj
+      simp only [callsBefore, Nat.add_zero] at hfail
+      simp only [hfail]
+    | succ j =>
+      simp only [List.getElem?_cons_succ] at hj
+      obtain ⟨c1, h1⟩ := convertCol_succeeds (assign := assign) conv k idx c0 (tgt p c0)
+        (by simpa [callsBefore] using hbefore 0 c0 (Nat.succ_pos j) rfl)
+      have e1 : ∀ i, k + callsBefore tgt p (c0 :: cs) (i + 1) =
+          k + (if targeted c0 (tgt p c0) then 1 else 0) + callsBefore tgt (p + 1) cs i := by
+        intro i; simp [callsBefore]; omega
+      have e2 : ∀ i, p + (i + 1) = p + 1 + i := by intro i; omega
+      rw [e1 j, e2 j] at hfail
+      have := ih (k + (if targeted c0 (tgt p c0) then 1 else 0)) (p + 1) j c e hj (fun i ci hi hci => by
+        have := hbefore (i + 1) ci (by omega) (by simpa using hci)
+        rwa [e1 i, e2 i] at this) hfail
+      simp only [h1, this]
+
+/-- **convert_units returns.**  With a converter chosen, a well-formed dispatcher argument, and every column
+    either untargeted or convertible (not text/onoff/datetime, target not `__origin__`) with the converter
+    answering its call (the `callsBefore`-th) with one value per row: the call returns the reference of a
+    new frame — which then is `Result` by `convert_values_and_label`. -/
+theorem convert_succeeds (w : World) (self : Nat) (h : self < w.length) (to : To)
+    (converter dflt : Option Conv) (conv : Conv) (tgt : Nat → Col → Option Str)
+    (hch : choose converter dflt = some conv) (htg : Spec.target to w[self].cols.length = .ok tgt)
+    (hok : ∀ j c, w[self].cols[j]? = some c →
+      ColOK conv (callsBefore tgt 0 w[self].cols j) w[self].index.length c (tgt j c)) :
+    (convertUnits assign w self h to converter dflt).2 = .ok w.length := by
+  have href := (convertUnits_refines (assign := assign) w self h to converter dflt).2
+  simp only [hch, htg] at href
+  obtain ⟨r, hr⟩ := convCols_succeeds (assign := assign) conv tgt w[self].index w[self].cols 0 0
+    (by simpa using hok)
+  obtain ⟨cs', k'⟩ := r
+  simp only [hr] at href
+  exact href.1
+
+/-- **the caller gets the error of the first failing column**: if every column before `j` can be converted
+    and `Column.convert_units` raises `e` for column `j` (at its place in the call sequence), then
+    `Table.convert_units` raises exactly `e` -/
+theorem first_failure_error (w : World) (self : Nat) (h : self < w.length) (to : To)
+    (converter dflt : Option Conv) (conv : Conv) (tgt : Nat → Col → Option Str)
+    (hch : choose converter dflt = some conv) (htg : Spec.target to w[self].cols.length = .ok tgt)
+    (j : Nat) (c : Col) (e : Err) (hc : w[self].cols[j]? = some c)
+    (hbefore : ∀ i ci, i < j → w[self].cols[i]? = some ci →
+      ColOK conv (callsBefore tgt 0 w[self].cols i) w[self].index.length ci (tgt i ci))
+    (hfail : convertCol assign conv (callsBefore tgt 0 w[self].cols j) w[self].index c (tgt j c) = .error e) :
+    (convertUnits assign w self h to converter dflt).2 = .error e := by
+  have href := (convertUnits_refines (assign := assign) w self h to converter dflt).2
+  simp only [hch, htg] at href
+  have := convCols_first_error (assign := assign) conv tgt w[self].index w[self].cols 0 0 j c e hc
+    (by simpa using hbefore) (by simpa using hfail)
+  simp only [this] at href
+  exact href
+
+/-- … in particular UnitConversionNotDefinedError for a refused special column … -/
+theorem first_failure_special (w : World) (self : Nat) (h : self < w.length) (to : To)
+    (converter dflt : Option Conv) (conv : Conv) (tgt : Nat → Col → Option Str)
+    (hch : choose converter dflt = some conv) (htg : Spec.target to w[self].cols.length = .ok tgt)
+    (j : Nat) (c : Col) (u : Str) (hc : w[self].cols[j]? = some c)
+    (hbefore : ∀ i ci, i < j → w[self].cols[i]? = some ci →
+      ColOK conv (callsBefore tgt 0 w[self].cols i) w[self].index.length ci (tgt i ci))
+    (hs : special c.unit = true) (hu : tgt j c = some u) (hne : u ≠ c.unit) :
+    (convertUnits assign w self h to converter dflt).2 = .error .unitConversionNotDefined :=
+  first_failure_error w self h to converter dflt conv tgt hch htg j c _ hc hbefore
+    (by rw [hu]; exact convertCol_special conv _ _ c u hs hne)
+
+/-- … and the converter's own exception when the converter fails -/
+theorem first_failure_converter (w : World) (self : Nat) (h : self < w.length) (to : To)
+    (converter dflt : Option Conv) (conv : Conv) (tgt : Nat → Col → Option Str)
+    (hch : choose converter dflt = some conv) (htg : Spec.target to w[self].cols.length = .ok tgt)
+    (j : Nat) (c : Col) (u e : Str) (hc : w[self].cols[j]? = some c)
+    (hbefore : ∀ i ci, i < j → w[self].cols[i]? = some ci →
+      ColOK conv (callsBefore tgt 0 w[self].cols i) w[self].index.length ci (tgt i ci))
+    (hu : tgt j c = some u) (hne : u ≠ c.unit) (hs : special c.unit = false) (ho : u ≠ origin)
+    (hfail : conv (callsBefore tgt 0 w[self].cols j) c.vals c.unit (convArg u) = .error e) :
+    (convertUnits assign w self h to converter dflt).2 = .error (.conv e) :=
+  first_failure_error w self h to converter dflt conv tgt hch htg j c _ hc hbefore
+    (by rw [hu]; exact convertCol_conv_error conv _ _ c u e hne hs ho hfail)
 
 /-! ## the dispatcher forms -/
 
 /-- no converter and no default converter: MissingUnitConverterError, nothing allocated -/
 theorem missing_converter (w : World) (self : Nat) (h : self < w.length) (to : To) :
-    convertUnits w self h to none none = (w, .error .missingConverter) := rfl
+    convertUnits assign w self h to none none = (w, .error .missingConverter) := rfl
 
 /-- a positional list of the wrong length is a ValueError before any conversion -/
 theorem positional_length_checked (w : World) (self : Nat) (h : self < w.length)
     (xs : List (Option Str)) (conv : Conv) (dflt : Option Conv)
     (hl : xs.length ≠ w[self].cols.length) :
-    (convertUnits w self h (.seq xs) (some conv) dflt).2 = .error .valueError := by
+    (convertUnits assign w self h (.seq xs) (some conv) dflt).2 = .error .valueError := by
   simp [convertUnits, choose, dispatch, form, hl]
 
 /-- a `str` other than "origin"/"base" is a Sequence: it is read as the list of its characters -/
 theorem str_is_sequence (w : World) (self : Nat) (h : self < w.length) (s : Str)
     (converter dflt : Option Conv) (h1 : s ≠ "origin".toList) (h2 : s ≠ "base".toList) :
-    convertUnits w self h (.str s) converter dflt =
-      convertUnits w self h (.seq (s.map (fun ch => some [ch]))) converter dflt := by
+    convertUnits assign w self h (.str s) converter dflt =
+      convertUnits assign w self h (.seq (s.map (fun ch => some [ch]))) converter dflt := by
   simp only [convertUnits, dispatch, form]
   rw [if_neg h1, if_neg h2]
 
 /-- anything that is not a str, Sequence, dict or callable: TypeError -/
 theorem other_is_type_error (w : World) (self : Nat) (h : self < w.length) (conv : Conv)
-    (dflt : Option Conv) : (convertUnits w self h .other (some conv) dflt).2 = .error .typeError := by
+    (dflt : Option Conv) : (convertUnits assign w self h .other (some conv) dflt).2 = .error .typeError := by
   simp [convertUnits, choose, dispatch, form]
 
 /-- 'origin' is not implemented: with a convertible column whose unit is not literally `__origin__`
@@ -620,7 +803,7 @@ theorem origin_not_implemented (w : World) (self : Nat) (h : self < w.length)
     (converter dflt : Option Conv) (conv : Conv) (hch : choose converter dflt = some conv)
     (j : Nat) (c : Col) (hc : w[self].cols[j]? = some c) (hs : special c.unit = false)
     (hu : c.unit ≠ origin) :
-    ∃ e, (convertUnits w self h (.str "origin".toList) converter dflt).2 = .error e := by
+    ∃ e, (convertUnits assign w self h (.str "origin".toList) converter dflt).2 = .error e := by
   apply column_failure_fails_call w self h _ converter dflt conv _ hch (target_origin _) j c hc
   refine ⟨.notImplemented, ?_⟩
   unfold convertCol
@@ -642,21 +825,69 @@ def exConv (failSecond : Bool) : Conv := fun k vs _ to =>
   if failSecond && k == 1 then .error "KeyError".toList
   else .ok (vs.map (fun v => v ++ "*".toList), match to with | some u => u | none => "m".toList)
 
-example : convertUnits [exT] 0 (by decide) (.dict [("a".toList, some "m".toList), ("zz".toList, some "q".toList)])
+example : convertUnits positionalAssign [exT] 0 (by decide) (.dict [("a".toList, some "m".toList), ("zz".toList, some "q".toList)])
     (some (exConv false)) none =
     ([exT, { exT with cols := [⟨"a".toList, "m".toList, ["1*".toList, "2*".toList, "3*".toList]⟩,
                                ⟨"b".toList, "C".toList, ["1.5".toList, "nan".toList, "3.0".toList]⟩,
                                ⟨"c".toList, "text".toList, ["x".toList, "y".toList, "z".toList]⟩] }], .ok 1) := by
   rfl
 
-example : (convertUnits [exT] 0 (by decide) (.str "base".toList) (some (exConv true)) none).2
+example : (convertUnits positionalAssign [exT] 0 (by decide) (.str "base".toList) (some (exConv true)) none).2
     = .error (.conv "KeyError".toList) := by rfl
 
-example : (convertUnits [exT] 0 (by decide) (.seq [none, none, some "m".toList]) (some (exConv false)) none).2
+example : (convertUnits positionalAssign [exT] 0 (by decide) (.seq [none, none, some "m".toList]) (some (exConv false)) none).2
     = .error .unitConversionNotDefined := by rfl
 
 example : choose (some (exConv true)) none = some (exConv true) ∧
     (∃ tgt, Spec.target (.str "base".toList) exT.cols.length = .ok tgt ∧ tgt 1 ⟨"b".toList, "C".toList, []⟩ = some base) :=
   ⟨rfl, _, target_base _, by decide⟩
+
+/-- the hypotheses of `convert_succeeds` (and `first_failure_error`'s `hbefore`) are satisfiable: the
+    permuted-index table, `{a: m, zz: q}`, the tagging converter -/
+example : ∃ tgt, Spec.target (.dict [("a".toList, some "m".toList), ("zz".toList, some "q".toList)])
+      exT.cols.length = .ok tgt ∧ choose (some (exConv false)) none = some (exConv false) ∧
+    ∀ j c, exT.cols[j]? = some c →
+      ColOK (exConv false) (callsBefore tgt 0 exT.cols j) exT.index.length c (tgt j c) := by
+  refine ⟨_, rfl, rfl, ?_⟩
+  intro j c hc
+  rcases j with _ | _ | _ | j
+  · cases hc
+    exact Or.inr ⟨"m".toList, ["1*".toList, "2*".toList, "3*".toList], "m".toList, rfl, by decide, by decide,
+      rfl, rfl⟩
+  · cases hc; exact Or.inl rfl
+  · cases hc; exact Or.inl rfl
+  · simp [exT] at hc
+
+/-! ### what the law `Positional` excludes: the label-aligned setter the code had before its fix -/
+
+def defaultLabels (n : Nat) : List Val := (List.range n).map natToStr
+
+/-- `self._values.update(pd.Series(values))` (without copy-on-write): the new values carry the labels
+    0 … n-1 and each row takes the value whose label equals the row's own label -/
+def labelAligned : Assign := fun idx c vs =>
+  { c with vals := (idx.zip c.vals).map (fun p => (vs[(defaultLabels vs.length).idxOf p.1]?).getD p.2) }
+
+def exColA : Col := ⟨"a".toList, "mm".toList, ["1".toList, "2".toList, "3".toList]⟩
+
+/-- on the permuted index 2, 0, 1 the label-aligned primitive puts the converter's output on the wrong
+    rows: the column that `Column.convert_units` produces is *not* `Converted` -/
+example : ∃ c' k', convertCol labelAligned (exConv false) 0 exT.index exColA (some "m".toList) = .ok (c', k') ∧
+    c'.vals = ["3*".toList, "1*".toList, "2*".toList] ∧
+    ¬ Converted (exConv false) 0 exT.index.length exColA (some "m".toList) c' := by
+  refine ⟨_, _, rfl, rfl, ?_⟩
+  intro h
+  unfold Converted at h
+  have ht : targeted exColA (some "m".toList) = true := by decide
+  simp only [ht, Bool.true_eq_false, if_false] at h
+  obtain ⟨u, vs, rep, hu, -, -, hc, -, hc'⟩ := h
+  cases hu
+  have hconv : exConv false 0 exColA.vals exColA.unit (convArg "m".toList) =
+      .ok (["1*".toList, "2*".toList, "3*".toList], "m".toList) := rfl
+  rw [hconv] at hc
+  cases hc
+  exact absurd hc' (by decide)
+
+example : ¬ Positional labelAligned := fun h =>
+  absurd (h exT.index exColA ["1*".toList, "2*".toList, "3*".toList] rfl) (by decide)
 
 end Pdt.C06
